@@ -736,7 +736,7 @@ void token_split_on_char(token * t, const char * source, const char c) {
 
 			t->next = new;
 
-			t->len = pos;
+			t->len = start + pos - t->start;
 
 			t = t->next;
 		}
